@@ -11,6 +11,7 @@ for d in seeded/*/; do
   # was written against), else the property it was written against
   prop=$(python3 -c "import json,sys; m=json.load(open('$d/meta.json')); print(m.get('check') or m.get('property',''))")
   [ -n "$prop" ] || { echo "$id: no property in meta.json"; continue; }
+  [ "$prop" = "none" ] && { printf "%-12s %-4s %s\n" "$id" "-" "not a valid breaking change (see meta.json)"; continue; }
   r=$(tools/mutant_run.sh "$d/patch.diff" "$prop" 2>&1 | grep -aE "^exit=|PATCH-FAILED|DOES-NOT-COMPILE" | tail -1)
   printf "%-12s %-4s %s\n" "$id" "$prop" "$r"
   case "$r" in exit=1*) ;; *) rc=1;; esac
